@@ -461,6 +461,24 @@ func genC06(ctx *Ctx) {
 			emitLex(pre + q)
 		}
 	}
+	// nesting around the parser's depth limit (terms and relations share one counter)
+	for _, d := range []int{1, 2, 100, 250, 254, 255, 256, 257, 258, 300, 1000} {
+		rep := strings.Repeat
+		for _, q := range []string{
+			"INSERT INTO t (a) VALUES (" + rep("[", d) + "1" + rep("]", d) + ")",
+			"INSERT INTO t (a) VALUES (" + rep("(", d) + "1" + rep(")", d) + ")",
+			"INSERT INTO t (a) VALUES (" + rep("{", d) + "1" + rep("}", d) + ")",
+			"INSERT INTO t (a) VALUES (" + rep("f(", d) + "1" + rep(")", d) + ")",
+			"INSERT INTO t (a) VALUES (" + rep("(int)", d) + "1)",
+			"INSERT INTO t (a) VALUES (" + rep("{a:", d) + "1" + rep("}", d) + ")",
+			"UPDATE t SET a = 1 WHERE " + rep("(", d) + "k = 1" + rep(")", d),
+			"UPDATE t SET a = 1 WHERE " + rep("(", d/2) + "k = " + rep("[", d-d/2) + "1" + rep("]", d-d/2) + rep(")", d/2),
+			"DELETE FROM t WHERE " + rep("(", d-1) + "k IN (" + rep("(", 1) + "1" + rep(")", 1) + ")" + rep(")", d-1),
+			"BEGIN BATCH UPDATE t SET a = " + rep("[", d) + "1" + rep("]", d) + " WHERE k = 1 INSERT INTO t (a) VALUES (" + rep("[", d) + "now()" + rep("]", d) + ") APPLY BATCH",
+		} {
+			emitClass(q, 2, 0, 2, "nesting-depth")
+		}
+	}
 	// statements that are not CQL at all although each piece is: never idempotent
 	for _, q := range []string{
 		"INSERT INTO t (a) VALUES (1) UPDATE cnt SET n = n + 1 WHERE k = 1", "INSERT INTO t (a) VALUES (1) INSERT INTO t (a) VALUES (now())",
